@@ -13,6 +13,15 @@ What is executed for each pair (old registry, new registry):
      materialised as a real file in the scratch directory and the real `Persistence.load` is run on
      it into an empty dict; the result must be the old or the new registry.
 
+  5. the same oracle on the directory as it REALLY was at every crash point: what is on disk when the process dies is
+     what was flushed, not what was written.  While the instrumented save runs, an audit hook (`sys.addaudithook`) reads the
+     directory immediately before every file-system operation the interpreter performs in it (open, rename/replace, remove,
+     chmod, truncate, link, ... through whichever binding) and before every logged write / close; each distinct directory is
+     rebuilt (live file and its siblings) and loaded by the real `Persistence.load` (`judge_observed`).  A rename / remove /
+     chmod done while a handle with unflushed text is still open is thereby judged on the file the disk really holds.
+     Each observed directory must also be a crash state of the buffered model (`crashStatesB`, Model/FileOpsBuffered.lean;
+     driver `bdigest`) for the logged sequence.
+
 A failing crash state is the *known finding* `truncate-in-place` only if the logged sequence is exactly
 the in-place one (open "w", one write, close) and the content is "" or a strict prefix of the new
 text; anything else is reported as a new violation.
@@ -25,6 +34,9 @@ import builtins
 import io
 import json
 import os
+import shutil
+import sys
+import threading
 from unittest import mock
 
 from .. import lib
@@ -219,6 +231,47 @@ class LoggedBin(_LoggedMixin, io.BufferedIOBase):  # dispatches to aiofiles' bin
         return self._f.raw
 
 
+# ---- the real file system at every crash point -----------------------------------------------
+#
+# What survives the death of the process is what has reached the file, not what has been written: text
+# handed to `write` sits in Python's buffers until a flush / the close (or until the buffer overflows).  The
+# operation log above cannot know that, so the recorder also LOOKS: immediately before every file-system
+# operation the interpreter audits inside the directory of the persistence file (open, rename/replace, remove,
+# chmod, chown, truncate, link, mkdir, utime, ... - whatever the code does, through whichever binding) and before
+# every logged write / close it reads the directory as it really is at that moment.  That is the directory a
+# process killed at that point leaves behind (nothing buffered in the process is flushed by a kill); `load`
+# judges it.
+
+_AUDIT_ACTIVE: list = []          # the recorder that is observing, if any
+_AUDIT_INSTALLED = False
+_audit_tls = threading.local()
+_AUDIT_PREFIXES = ("os.", "shutil.", "tempfile.", "pathlib.", "fcntl.", "glob.", "mmap.")
+
+
+def _audit_hook(event: str, args: tuple) -> None:
+    if not _AUDIT_ACTIVE:
+        return
+    if event != "open" and not event.startswith(_AUDIT_PREFIXES):
+        return
+    if getattr(_audit_tls, "busy", False):
+        return
+    _audit_tls.busy = True
+    try:
+        for rec in list(_AUDIT_ACTIVE):
+            rec.audited(event, args)
+    except Exception:  # noqa: BLE001  an observer must never change what the observed code does
+        pass
+    finally:
+        _audit_tls.busy = False
+
+
+def _install_audit_hook() -> None:
+    global _AUDIT_INSTALLED
+    if not _AUDIT_INSTALLED:
+        _AUDIT_INSTALLED = True
+        sys.addaudithook(_audit_hook)
+
+
 class SnapLog(list):
     """The event log; every append also records what the live file really holds at that moment, so that
     a change made through a path the loggers do not see (another module's binding of os.replace, a
@@ -231,6 +284,8 @@ class SnapLog(list):
     def append(self, e) -> None:
         rec = self.rec
         rec.pre.append((rec.handles, rec._snapshot(rec.live)))
+        if e[0] in ("write", "close", "truncate", "seek"):      # operations on a handle: not audited by path
+            rec.observe(f"{e[0]}({e[2]})")
         if e[0] == "open":
             rec.handles += 1
         elif e[0] == "close":
@@ -248,6 +303,10 @@ class Recorder:
         self.handles = 0
         self.roles: dict[str, str] = {self.live: "live"}
         self._n = 0
+        self.dir = os.path.dirname(self.live)
+        self.observed: list[tuple[dict, dict]] = []     # (crash point, {name relative to the live file: real content})
+        self.touched: set[str] = set()
+        self._obs_lock = threading.Lock()
         self._real = {"open": builtins.open, "replace": os.replace, "rename": os.rename, "remove": os.remove,
                       "unlink": os.unlink, "truncate": os.truncate}
 
@@ -277,11 +336,62 @@ class Recorder:
         return proxy
 
     def _snapshot(self, path):
+        busy = getattr(_audit_tls, "busy", False)
+        _audit_tls.busy = True          # the harness's own look at a file is not an operation of the code
         try:
             with self._real["open"](path, "rb") as f:
                 return f.read()
         except OSError:
             return None
+        finally:
+            _audit_tls.busy = busy
+
+    # -- observation of the real directory -------------------------------------------------------
+
+    def _rel(self, name: str) -> str:
+        base = os.path.basename(self.live)
+        return "live" + name[len(base):] if name.startswith(base) else name
+
+    def observe(self, before: str) -> None:
+        """The directory as it really is now = what a process killed before operation `before` leaves behind."""
+        busy = getattr(_audit_tls, "busy", False)
+        _audit_tls.busy = True
+        try:
+            with self._obs_lock:
+                base = os.path.basename(self.live)
+                try:
+                    names = os.listdir(self.dir)
+                except OSError:
+                    names = []
+                files = {}
+                for n in sorted(names):
+                    if n.startswith(base) or n in self.touched:
+                        p = os.path.join(self.dir, n)
+                        if os.path.isfile(p):
+                            files[self._rel(n)] = self._snapshot(p)
+                self.observed.append(({"point": len(self.observed), "killed_before": before, "logged_ops_done": len(self.log)}, files))
+        finally:
+            _audit_tls.busy = busy
+
+    def audited(self, event: str, args: tuple) -> None:
+        names = []
+        for a in args[:3]:
+            if isinstance(a, bytes):
+                a = os.fsdecode(a)
+            elif isinstance(a, os.PathLike):
+                a = os.fspath(a)
+            if not isinstance(a, str) or not a:
+                continue
+            p = os.path.realpath(a)
+            if os.path.dirname(p) == self.dir:
+                self.touched.add(os.path.basename(p))
+                names.append(self._rel(os.path.basename(p)))
+            if event == "open":
+                break
+        if not names:
+            return
+        detail = f", mode={args[1]!r}" if event == "open" and len(args) > 1 else ""
+        self.observe(f"{event}({', '.join(names)}{detail})")
 
     def _rename(self, which):
         def wrapper(src, dst, *a, **k):
@@ -314,13 +424,20 @@ class Recorder:
         aio = mock.patch.multiple(aiofiles.os, replace=lifted(self._rename("replace")), rename=lifted(self._rename("rename")),
                                   remove=lifted(self._remove("remove")), unlink=lifted(self._remove("unlink")))
 
+        rec = self
+
         class Both:
             def __enter__(s):
                 stack.__enter__()
                 aio.__enter__()
                 opener.__enter__()
+                _install_audit_hook()
+                _AUDIT_ACTIVE.append(rec)
 
             def __exit__(s, *exc):
+                if rec in _AUDIT_ACTIVE:
+                    _AUDIT_ACTIVE.remove(rec)
+                rec.observe("(save returned)")
                 opener.__exit__(*exc)
                 aio.__exit__(*exc)
                 stack.__exit__(*exc)
@@ -484,6 +601,64 @@ def layout_text(spec: list[dict], layout: str) -> str:
     return json.dumps(data, sort_keys=True, indent=2)
 
 
+def is_in_place(ops: list[str], new_bytes: bytes) -> bool:
+    return ops == ["openTrunc:live", f"write:live:{hexb(new_bytes)}", "close:live"]
+
+
+async def judge_observed(corr: Corr, rec: Recorder, label, want: set, in_place: bool, new_bytes: bytes, case: dict,
+                         simulated: set | None = None) -> None:
+    """The oracle on the directory as it REALLY was at every crash point of the instrumented save (`Recorder.observe`):
+    each distinct directory is rebuilt next to the scratch file and loaded by the real `Persistence.load`; it must give
+    the old or the new registry.  The recorded finding covers only today's sequence (open "w", one write, close) with a
+    live file that holds a strict prefix of the new text."""
+    base = os.path.basename(rec.live)
+    crash_dir = rec.live + ".crashdir"
+    seen = set()
+    for point, files in rec.observed:
+        key = tuple(sorted(files.items()))
+        if key in seen:
+            continue
+        seen.add(key)
+        shutil.rmtree(crash_dir, ignore_errors=True)
+        os.makedirs(crash_dir)
+        for name, content in files.items():
+            if content is None:
+                continue
+            target = base + name[len("live"):] if name.startswith("live") else name
+            with open(os.path.join(crash_dir, target), "wb") as f:
+                f.write(content)
+        obs = await real_load(os.path.join(crash_dir, base))
+        content = files.get("live")
+        ok = obs in want
+        corr.count("observed-state:before " + (point["killed_before"].split("(")[0] or "save returns"))
+        if simulated is not None and content not in simulated:
+            corr.count("observed-state: live file differs from every write-through crash state")
+        corr.count("observed-load:" + ("old-or-new" if ok else "empty-registry" if obs == ("ok", "{}") else obs[0]))
+        corr.case((label, "observed", point["point"], obs[0]), point["killed_before"] != "(save returned)" and point["point"] > 0,
+                  {"pair": label, "observed_crash_point": point, "content_len": None if content is None else len(content), "load": obs[0]})
+        if ok:
+            continue
+        strict_prefix = content is not None and len(content) < len(new_bytes) and new_bytes.startswith(content)
+        info = {**case, "crash": {"kind": "observed", **point},
+                "crash_points": [pt["killed_before"] for pt, _ in rec.observed],
+                "directory_at_crash": {n: None if b is None else {"len": len(b), "head": b[:120].decode("utf-8", "replace")} for n, b in files.items()},
+                "content_len": None if content is None else len(content), "load": list(obs)}
+        if in_place and strict_prefix:
+            corr.count("known-finding:" + KNOWN)
+            if corr.dist["known-finding:" + KNOWN] > 12:
+                continue
+            corr.violate("the directory as it really was at a crash point loads to neither the old nor the new registry: "
+                         + ("empty file -> empty registry" if not content else "strict prefix of the new text -> read error"),
+                         {"class": KNOWN, **info})
+        else:
+            corr.violate("the directory as it really was at a crash point of save (what a process killed before that operation leaves "
+                         "on disk: text written but not yet flushed is lost) loads to neither the old nor the new registry (not the "
+                         "recorded truncate-in-place class: "
+                         + ("operation sequence differs from open-w/one-write/close" if not in_place else "the live file is not a prefix of the new text") + ")",
+                         info)
+    shutil.rmtree(crash_dir, ignore_errors=True)
+
+
 async def run_chain(corr: Corr, ctx, label: str, steps: list) -> None:
     """Several saves by ONE Persistence object over a registry that is mutated IN PLACE between them (as a running
     gateway does): `steps` is a list of functions that mutate the registry.  After every step the registry is saved;
@@ -546,6 +721,14 @@ async def run_chain(corr: Corr, ctx, label: str, steps: list) -> None:
                      "successfully saved nor the one being saved",
                      {**case, "crash": lab, "last_saved": last_saved[:300], "being_saved": being_saved[:300], "load": list(obs)[:2]})
         break
+    final = rec._snapshot(live) or b""
+    ops = canonical_ops(rec.log)
+    await judge_observed(corr, rec, ("chain", label), want, is_in_place(ops, final), final,
+                         {**case, "ops": [o if len(o) < 60 else o[:40] + "…" for o in ops],
+                          "last_saved": (last_saved or "")[:300], "being_saved": being_saved[:300]})
+    for path, role in rec.roles.items():
+        if role != "live" and os.path.exists(path):
+            os.unlink(path)
     for pth in (crash_path, live):
         if os.path.exists(pth):
             os.unlink(pth)
@@ -668,7 +851,7 @@ async def run_pair(corr: Corr, ctx, rng, label: str, old_spec, new_spec, must: l
         case["leftovers"] = leftovers
 
     # correspondence with the model
-    in_place = ops == ["openTrunc:live", f"write:live:{hexb(new_bytes)}", "close:live"]
+    in_place = is_in_place(ops, new_bytes)
     atomic = ops == ["openTrunc:tmp", f"write:tmp:{hexb(new_bytes)}", "close:tmp", "rename:tmp:live"]
     case["sequence"] = "in-place" if in_place else "atomic" if atomic else "other"
     corr.count("sequence:" + case["sequence"])
@@ -734,10 +917,66 @@ async def run_pair(corr: Corr, ctx, rng, label: str, old_spec, new_spec, must: l
                          info)
     if os.path.exists(crash_path):
         os.unlink(crash_path)
+    # the buffered model (Model/FileOpsBuffered.lean, crashStatesB): every directory really observed at a crash point must be
+    # one of the model's crash states of the logged sequence (any prefix of each handle's unflushed text on disk)
+    modelled_op = all(o.split(":")[0] in ("openTrunc", "write", "close", "rename") and set(o.split(":")[1:3 if o.startswith("rename") else 2]) <= {"live", "tmp"}
+                      for o in ops)
+    if ctx.model_ok and rec.observed and len(new_bytes) <= 1500:
+        by_name = {rec._rel(os.path.basename(pth)): role for pth, role in rec.roles.items()}
+        if modelled_op and all(by_name.get(n) in ("live", "tmp") for _, fl in rec.observed for n in fl):
+            seen_dg = []
+            for point, fl in rec.observed:
+                dg = digest({by_name[n]: b for n, b in fl.items()})
+                if dg not in [d for d, _ in seen_dg]:
+                    seen_dg.append((dg, point))
+            BUF_LINES.append((f"bdigest {'missing' if old_bytes is None else hexb(old_bytes)} {' '.join(ops)}", seen_dg, dict(case)))
+        else:
+            corr.count("buffered model: sequence or files outside the modelled operations")
+    # ... and the oracle on the directory as it really was at every crash point (buffered text is not on disk)
+    await judge_observed(corr, rec, label, want, in_place, new_bytes, case, {f.get("live") for _, f in states})
     if os.path.exists(live):
         os.unlink(live)
 
 
+def replay(case: dict) -> int:
+    """Re-execute the case of a C15 replay: the same old / new registries (or chain of in-place changes) are saved by the
+    real `Persistence.save` under the recorder, and every crash state - simulated from the operation log and observed in
+    the real directory before every file-system operation - is loaded again by the real `Persistence.load`."""
+    class Ctx:
+        model_ok, tier, seed = False, "quick", 0
+
+    corr = Corr("C15", "replay")
+    if "chain" in case:
+        steps = dict(chains()).get(case["chain"])
+        if steps is None:
+            print("unknown chain", case["chain"])
+            return 0
+        asyncio.run(run_chain(corr, Ctx, case["chain"], steps))
+    else:
+        must = [case["state_index"]] if isinstance(case.get("state_index"), int) else []
+        asyncio.run(run_pair(corr, Ctx, lib.rng_for(0, "c15-replay"), case.get("pair", "replay"), case.get("old"), case["new"], must, [],
+                             session=case.get("session")))
+    new = [v for v in corr.violations if v.get("class") != KNOWN]
+    for v in (new or corr.violations)[:3]:
+        print("operation sequence of save:", v.get("ops"))
+        if "crash_points" in v:
+            print("crash points observed (the process is killed before ...):", v["crash_points"])
+        print("crash:", v.get("crash"))
+        if "directory_at_crash" in v:
+            print("directory at the crash:", v["directory_at_crash"])
+        else:
+            print("live file at the crash:", repr(v.get("content"))[:200], "len", v.get("content_len"))
+        print("Persistence.load on it:", str(v.get("load"))[:300])
+        print("  ->", v["what"][:400], "" if v in new else f"[known finding {KNOWN}]")
+    if new:
+        print(f"reproduced: {len(new)} crash state(s) outside the recorded class {KNOWN} load to neither the old nor the new registry")
+    else:
+        print(f"NOT reproduced: every crash state loads to the old or the new registry, or is of the recorded class {KNOWN} "
+              f"({len(corr.violations)} listed)")
+    return 0
+
+
+BUF_LINES: list = []       # (driver line, [(digest of an observed directory, crash point)], case)
 TEXT_LINES: list = []      # (content of a materialised crash state, what the real load made of it, case)
 
 
@@ -792,7 +1031,9 @@ def run_c15(ctx) -> Corr:
                 "(saveOps/crashStates), and every crash state (thorough: every byte prefix; quick: >= 40 prefixes incl. 0, 1, "
                 "len-1) is materialised as a real file and loaded by the real Persistence.load, and its content is also loaded by "
                 "the modelled loader of C15.realLoader (UTF-8 decoding, JsonText.parse, schema load; driver bload) with the same "
-                "outcome required; one case = one crash state; "
+                "outcome required; additionally the directory as it really is immediately before every audited file-system operation "
+                "and every logged write/close of that save (unflushed text is not on disk) is rebuilt and loaded by the real load, and "
+                "must be a crash state of the buffered model crashStatesB; one case = one crash state; "
                 "non-trivial = the crash is strictly inside the operation sequence")
     rng = lib.rng_for(ctx.seed, "c15")
     kinds = {"empty": [], "one": ONE, "several": SEVERAL, "nonascii": NONASCII}
@@ -835,7 +1076,18 @@ def run_c15(ctx) -> Corr:
             await run_chain(corr, ctx, label, steps)
 
     TEXT_LINES.clear()
+    BUF_LINES.clear()
     asyncio.run(main())
+
+    if ctx.model_ok and BUF_LINES:
+        outs = lib.run_model([b[0] for b in BUF_LINES], driver=DRIVER)
+        for (line, seen_dg, case), out in zip(BUF_LINES, outs):
+            have = set(out.split(" "))
+            for dg, point in seen_dg:
+                corr.count("model:bdigest " + ("observed directory is a buffered crash state" if dg in have else "MISSING"))
+                if dg not in have:
+                    corr.disagree("the directory really observed at a crash point is not a crash state of the buffered model (crashStatesB) "
+                                  "for the logged operation sequence", {**case, "observed_crash_point": point, "digest": dg, "model": out[:300]})
 
     if ctx.model_ok and TEXT_LINES:
         check_crash_loads(corr)
